@@ -326,6 +326,45 @@ def same_stereo(a, b):
     return None
 
 
+def modernize(sym):
+    """the documented modern equivalent of a pre-v2 symbol, computed independently of selfies.compatibility:
+    the CHANGELOG table for branch / ring symbols; for `[<bond>BODYexpl]` the atom BODY is read with the
+    reference atom reader and re-spelled in the standard form (isotope, element, chirality, H<n>, charge)"""
+    m = re.fullmatch(r"\[Branch([123])_([123])\]", sym)
+    if m:
+        return "[%sBranch%s]" % (["", "=", "#"][int(m.group(2)) - 1], m.group(1))
+    m = re.fullmatch(r"\[Expl([=#/\\])Ring([123])\]", sym)
+    if m:
+        b = m.group(1)
+        return "[%sRing%s]" % (b if b in "=#" else b + b, m.group(2))
+    if sym.endswith("expl]") and len(sym) >= 6:
+        if sym[1] in "=#/\\":
+            bond, body = sym[1], sym[2:-5]
+        else:
+            bond, body = "", sym[1:-5]
+        try:
+            a = read_atom("[" + body + "]")
+        except SmilesError:
+            return sym
+        if a.aromatic:
+            return sym
+        from_elements = True
+        out = ""
+        if a.isotope is not None:
+            out += str(a.isotope)
+        out += a.element
+        if a.chirality:
+            out += a.chirality
+        if a.hcount:
+            out += "H%d" % a.hcount
+        elif a.isotope is None and not a.chirality and a.charge == 0 and a.element in ORGANIC:
+            out += "H0"
+        if a.charge:
+            out += "%+d" % a.charge
+        return "[" + bond + out + "]"
+    return sym
+
+
 # --------------------------------------------------------------------------- RDKit
 
 def rdkit_valid(smiles):
